@@ -711,3 +711,81 @@ def codes_of(*funcs):
         f = getattr(f, "__func__", f)
         out.append(f.__code__)
     return out
+
+
+# ---------------------------------------------------------------------- queue / fd shims
+
+
+class CoQueue:
+    """queue.Queue look-alike whose blocking get is an enabledness predicate."""
+
+    def __init__(self, maxsize=0):
+        import collections
+
+        self._q = collections.deque()
+        self.maxsize = maxsize
+
+    def put(self, item, block=True, timeout=None):
+        self._q.append(item)
+
+    put_nowait = put
+
+    def empty(self):
+        return not self._q
+
+    def qsize(self):
+        return len(self._q)
+
+    def get(self, block=True, timeout=None):
+        import queue as _queue
+
+        s = _ACTIVE
+        if self._q:
+            return self._q.popleft()
+        if not block or s is None or s.me() is None:
+            raise _queue.Empty
+        ok = s.point(pred=lambda: bool(self._q), timeout=timeout)
+        if not ok or not self._q:
+            raise _queue.Empty
+        return self._q.popleft()
+
+    def get_nowait(self):
+        return self.get(block=False)
+
+    def task_done(self):
+        pass
+
+    def join(self):
+        pass
+
+
+def queue_shim():
+    import queue as real
+
+    return ShimModule(real, Queue=CoQueue, SimpleQueue=CoQueue)
+
+
+def os_read_shim(real_os=None, extra=None):
+    """os look-alike whose read() blocks cooperatively until the fd is readable (data or EOF)."""
+    import os as real
+    import select
+
+    real = real_os or real
+
+    def readable(fd):
+        try:
+            r, _, _ = select.select([fd], [], [], 0)
+        except (OSError, ValueError):
+            return True  # closed/invalid: the real call will raise at once
+        return bool(r)
+
+    def read(fd, n):
+        s = _ACTIVE
+        if s is not None and s.me() is not None and not readable(fd):
+            s.point(pred=lambda: readable(fd))
+        return real.read(fd, n)
+
+    over = {"read": read}
+    if extra:
+        over.update(extra)
+    return ShimModule(real, **over)
